@@ -25,7 +25,7 @@ MUTANTS = [
      "R2.5 NotesSlidePart"),
     ("writer-skips-rels", "writer omits the rels item of parts",
      [("src/pptx/opc/serialized.py", "            if part._rels:  # pyright: ignore[reportPrivateUsage]\n                phys_writer.write(part.partname.rels_uri, part.rels.xml)\n", "")],
-     "R2.6 rels-items"),
+     "R2.6 PackageWriter._write_parts"),
     ("save-subset", "save passes only the presentation part's direct targets",
      [("src/pptx/opc/package.py", "PackageWriter.write(pkg_file, self._rels, tuple(self.iter_parts()))", "PackageWriter.write(pkg_file, self._rels, tuple(r.target_part for r in self._rels.values()))")],
      "R2.6 OpcPackage.save"),
